@@ -45,7 +45,7 @@ func VerifHarness_C06_roundtrip() {
 // VerifHarness_C06_structured: grammar productions with symbolic identifiers and literals (longer
 // texts than the raw-bytes harness can reach): label == 'v', label != "v", has(label), !has(label),
 // label in {'a','b'}, label not in {...}, label contains/starts with/ends with 'v', joined by && / ||.
-func VerifHarness_C06_structured() {
+func verifStructuredText() string {
 	id := func(name string) string {
 		s := verifString(name, 2)
 		for i := 0; i < len(s); i++ {
@@ -95,6 +95,11 @@ func VerifHarness_C06_structured() {
 	case 3:
 		text = "!(" + a + ")"
 	}
+	return text
+}
+
+func VerifHarness_C06_structured() {
+	text := verifStructuredText()
 	sel, err := Parse(text)
 	verifAssert("structured/parses", err == nil)
 	if err != nil {
@@ -109,4 +114,14 @@ func VerifHarness_C06_structured() {
 	verifAssert("structured/fixed-point", sel2.String() == canon)
 	labels := verifLabels()
 	verifAssert("structured/same-meaning", sel.Evaluate(labels) == sel2.Evaluate(labels))
+}
+
+// VerifHarness_C06_validate: Validate accepts exactly what Parse accepts, on well-formed texts
+// followed by stray tokens (and on the well-formed texts themselves).
+func VerifHarness_C06_validate() {
+	tails := []string{"", " )", ")", " }", " has(zz)", " &&", " ||", " 'v'", " zz", " !", ",", " ==", " all()", "("}
+	text := verifStructuredText() + tails[verifChoose("tail", len(tails))]
+	_, err := Parse(text)
+	verr := Validate(text)
+	verifAssert("validate/agrees-with-parse", (err == nil) == (verr == nil))
 }
